@@ -9,6 +9,7 @@ import io, itertools, random, re
 import core
 from core import hx
 from runner import Case
+from props import _d_hist as H
 
 THEOREMS = [
     "C18.vertical_lines", "C18.vertical_preorder", "C18.vertical_indent",
@@ -172,9 +173,59 @@ def rehydrate(case):
 
 # ================================================================ real side
 def _build(d):
+    h = d.get("hist")
+    if h:
+        # the tree reaches d["spec"] through a history on the same objects: built as h["init"], derived properties read
+        # and the tree rendered once, then re-parented / re-ordered / slots swapped; the model only sees d["spec"]
+        import bigtree
+        if d.get("binary"):
+            root, objs = core.build_binary_tree(h["init"])
+            _fs, order = H.bstruct_final(h["init"], h["edits"])
+            apply = H.bapply_real
+        else:
+            root, objs = core.build_node_tree(h["init"])
+            _fs, order = H.final(h["init"], h["edits"])
+            apply = H.apply_real
+        for n in objs:
+            _ = (n.depth, n.max_depth, n.path_name, n.is_leaf)
+        _ = list(bigtree.yield_tree(root)), list(bigtree.hyield_tree(root))
+        for e in h["edits"]:
+            apply(objs, e)
+            _ = [n.depth for n in objs[:2]]
+        return root, [objs[i] for i in order]
     if d.get("binary"):
         return core.build_binary_tree(d["spec"])
     return core.build_node_tree(d["spec"])
+
+
+def _as_tuple_spec(t):
+    return (t[0], dict(t[1]), [_as_tuple_spec(c) for c in t[2]])
+
+
+def with_history(rng, case):
+    """the same rendering request (from the root, no node_name_or_path) on a history-built tree; None if unsuitable"""
+    d = case.data
+    if d.get("hist") or d["op"] not in ("yield", "print", "hyield", "dot", "mermaid", "rt") or d.get("start") or d.get("nnp"):
+        return None
+    init = d["spec"]
+    if d.get("binary"):
+        if t_size(init, True) < 3:
+            return None
+        edits = H.random_bstruct_edits(rng, init, rng.randint(1, 3))
+        if not edits:
+            return None
+        fin, _o = H.bstruct_final(init, edits)
+    else:
+        if t_size(init) < 3:
+            return None
+        # sibling names must stay distinct where the case needs it: moves only go where no child of that name exists
+        edits = H.random_edits(rng, init, rng.randint(1, 3), [], kinds=("move", "move", "reattach", "reorder", "delre"))
+        if not edits:
+            return None
+        fin, _o = H.final(init, edits)
+        fin = _as_tuple_spec(fin)
+    nd = dict(d, spec=fin, hist={"init": init, "edits": edits})
+    return Case(_line(nd), nd, tuple(case.tags) + ("history",))
 
 
 def _style_arg(d):
@@ -191,6 +242,12 @@ def _style_arg(d):
     if form == "obj":
         from bigtree.utils.constants import BasePrintStyle, BaseHPrintStyle
         return (BaseHPrintStyle if hor else BasePrintStyle)(*st)
+    if form == "kwobj":     # the style object built by KEYWORD (the documented field names), not by position
+        from bigtree.utils.constants import BasePrintStyle, BaseHPrintStyle
+        if hor:
+            return BaseHPrintStyle(first_child=st[0], subsequent_child=st[1], split_branch=st[2], middle_child=st[3],
+                                   last_child=st[4], stem=st[5], branch=st[6])
+        return BasePrintStyle(stem=st[0], branch=st[1], stem_final=st[2])
     if form == "tuple":
         return tuple(st)
     return list(st)
@@ -1260,14 +1317,14 @@ def gen(rng: random.Random, tier: str):
             add(mk({"op": "yield", "spec": spec, "style": st, "md": md, "start": start, "nnp": nnp,
                     "sform": rng.choice(["plain", "obj", "list"])}, tg))
         add(mk({"op": "yield", "spec": spec, "style": rng.choice(CUSTOM_STYLES), "md": rng.choice([0, md]),
-                "sform": rng.choice(["plain", "obj", "tuple"])}, tg + ("custom-style",)))
+                "sform": rng.choice(["plain", "obj", "tuple", "kwobj", "kwobj"])}, tg + ("custom-style",)))
         add(mk({"op": "print", "spec": spec, "style": rng.choice(BUILTIN), "md": md}, tg))
         for st in rng.sample(BUILTIN, 2):
             add(mk({"op": "hyield", "spec": spec, "style": st, "inter": rng.random() < 0.7, "md": rng.choice([0, md]),
                     "start": start, "nnp": nnp, "via": rng.choice(["yield", "print"]),
                     "sform": rng.choice(["plain", "obj", "list"])}, tg))
         add(mk({"op": "hyield", "spec": spec, "style": rng.choice(CUSTOM_HSTYLES), "inter": True,
-                "sform": rng.choice(["plain", "obj", "tuple"])}, tg + ("custom-style",)))
+                "sform": rng.choice(["plain", "obj", "tuple", "kwobj", "kwobj"])}, tg + ("custom-style",)))
         add(mk({"op": "hdec", "spec": spec, "style": rng.choice([s for s in BUILTIN if s != "ascii"] + [CUSTOM_HSTYLES[0]]),
                 "inter": rng.random() < 0.8, "md": rng.choice([0, 0, md])}, tg))
         add(mk({"op": "mermaid", "spec": spec, "md": rng.choice([0, md]), "start": 0, "nnp": nnp if start == 0 else ""}, tg))
@@ -1322,6 +1379,13 @@ def gen(rng: random.Random, tier: str):
                                                                     "prefix-list" if prefixes else "no-prefix-list")))
     # ---------------- the same dot / mermaid requests with presentation options (colours, shapes, arrows, edge labels,
     # per-node style callables and attributes): they restyle, and must not change which vertices and links exist
+    hist = []
+    for c in cases:
+        if "corpus" not in c.tags and rng.random() < 0.15:
+            h = with_history(rng, c)
+            if h is not None:
+                hist.append(h)
+    cases += hist
     styled = []
     for c in cases:
         if c.data["op"] in ("dot", "mermaid") and rng.random() < 0.5:
@@ -1358,6 +1422,19 @@ def shrink(case):
         lines = d["text"].split("\n")
         for i in range(len(lines) - 1, 0, -1):
             nd = dict(d, text="\n".join(lines[:i] + lines[i + 1:]))
+            yield Case(_line(nd), nd, case.tags)
+        return
+    if d.get("hist"):
+        nd = {k: v for k, v in d.items() if k != "hist"}
+        yield Case(_line(nd), nd, case.tags)          # the same tree without the history
+        h = d["hist"]
+        for k in range(len(h["edits"])):              # shorter histories
+            ed = h["edits"][:k] + h["edits"][k + 1:]
+            try:
+                fin = (H.bstruct_final if d.get("binary") else H.final)(h["init"], ed)[0]
+            except Exception:  # noqa: BLE001
+                continue
+            nd = dict(d, spec=fin if d.get("binary") else _as_tuple_spec(fin), hist={"init": h["init"], "edits": ed})
             yield Case(_line(nd), nd, case.tags)
         return
     for key, val in (("md", 0), ("nnp", ""), ("start", 0)):
